@@ -39,6 +39,29 @@ func sizeRuleText(rule string, lo, hi int64) string {
 	return rule + "=" + strconv.FormatInt(lo, 10)
 }
 
+// padInt writes n with pad leading zeros (010 is the decimal number ten: bounds are decimal integers).
+func padInt(n int64, pad int) string {
+	s := strconv.FormatInt(n, 10)
+	if pad == 0 {
+		return s
+	}
+	z := strings.Repeat("0", pad)
+	if strings.HasPrefix(s, "-") {
+		return "-" + z + s[1:]
+	}
+	return z + s
+}
+
+func sizeRuleTextPad(rule string, lo, hi int64, pad int) string {
+	switch rule {
+	case "to", "oto":
+		return rule + "=" + padInt(lo, pad) + "~" + padInt(hi, pad)
+	case "le", "lt":
+		return rule + "=" + padInt(hi, pad)
+	}
+	return rule + "=" + padInt(lo, pad)
+}
+
 func posClass(rule string, lo, hi int64, m *big.Rat) string {
 	cmp := func(b int64) string {
 		switch m.Cmp(new(big.Rat).SetInt64(b)) {
@@ -95,6 +118,14 @@ func valStr(v reflect.Value) string {
 // message separator itself (only the first one separates), '=', blanks, CJK.
 var c01Msgs = []string{"msgX", "m", "too small|try again", "值太小", "a=b|c", "msg X", "!", "x|"}
 
+// c01Pad: one case in seven writes its bounds with 1-3 leading zeros.
+func c01Pad(n int) int {
+	if n%7 != 0 {
+		return 0
+	}
+	return 1 + (n/7)%3
+}
+
 func c01Msg(n int) string {
 	if n%3 != 0 {
 		return ""
@@ -102,13 +133,16 @@ func c01Msg(n int) string {
 	return c01Msgs[(n/3)%len(c01Msgs)]
 }
 
-func judgeSize(res *core.Result, carrier string, v reflect.Value, rule string, lo, hi int64, msg string) {
+func judgeSize(res *core.Result, carrier string, v reflect.Value, rule string, lo, hi int64, msg string, pad int) {
 	defaultWording := msg == ""
 	m, ok := ref.Measure(v)
 	if !ok {
 		return
 	}
-	text := sizeRuleText(rule, lo, hi)
+	text := sizeRuleTextPad(rule, lo, hi, pad)
+	if pad > 0 {
+		res.Count("zero_padded_bound_cases")
+	}
 	if !defaultWording {
 		text += "|" + msg
 		res.Count("message_shape|" + msg)
@@ -198,7 +232,7 @@ var c01Strides = []struct {
 func init() {
 	core.Register(&core.Prop{
 		ID: "C01",
-		Rule: "(a) complete enumeration: every non-zero int8 and uint8 value x {ge,le,gt,lt,eq,noeq} x every bound in [-130,260], x {to,oto} x every (lo,hi) in BxB with B={-4..4,125..130,253..257}, each through Var and strided through Struct(RM), Struct(tag), a struct whose ruled field sits between time.Time, string and integer neighbours, Map[string]T, map[string]interface{}, []map; one case in three with a custom message (one byte, containing the message separator, an equals sign, blanks, CJK); " +
+		Rule: "(a) complete enumeration: every non-zero int8 and uint8 value x {ge,le,gt,lt,eq,noeq} x every bound in [-130,260], x {to,oto} x every (lo,hi) in BxB with B={-4..4,125..130,253..257}, each through Var and strided through Struct(RM), Struct(tag), a struct whose ruled field sits between time.Time, string and integer neighbours, Map[string]T, map[string]interface{}, []map; one case in seven with zero-padded bounds (010 = ten), one case in three with a custom message (one byte, containing the message separator, an equals sign, blanks, CJK); " +
 			"(b) boundary-directed random: kinds int16..int64,int,uint16..uint64,uint,float32,float64,string,slices with bounds near 0, 2^7, 2^8, 2^15, 2^16, 2^31, 2^32, 2^53, 2^62, 2^63-1 and values at bound-1, bound, bound+1 (floats: adjacent floats and +-0.5; strings: rune length at the bound with multi-byte runes), strings also through Url raw/encoded. " +
 			"distinct = distinct (carrier, kind, value, rule text); non-trivial = value non-zero and within 1 of a bound, or expected-violated",
 		Exhaustive: func(t core.Tier) bool { return true },
@@ -278,7 +312,7 @@ func runC01(c *core.Ctx) {
 				n++
 				for _, s := range c01Strides {
 					if n%s.every == 0 {
-						judgeSize(res, s.carrier, v, rule, lo, hi, c01Msg(n))
+						judgeSize(res, s.carrier, v, rule, lo, hi, c01Msg(n), c01Pad(n))
 					}
 				}
 				res.DistinctEnum(1)
@@ -590,7 +624,7 @@ func c01Random(res *core.Result, rng *rand.Rand, i int) {
 		}
 	}
 	for _, cr := range carriers {
-		judgeSize(res, cr, v, rule, lo, hi, c01Msg(i))
+		judgeSize(res, cr, v, rule, lo, hi, c01Msg(i), c01Pad(i))
 		if near || ref.SizeViolated(rule, lo, hi, m) {
 			res.Distinct(cr + "|" + v.Type().String() + "|" + valStr(v) + "|" + text)
 		}
